@@ -280,6 +280,30 @@ class FnCaseBuilder:
         self.helpers = helpers
         return self
 
+    def build_from(self, fns, trait_name="Subject", trait_vis="", helpers=False):
+        """Case around explicitly given FnSpecs (mode fn: exactly one; mode mod: all in one module)."""
+        self.helpers = self.helper_fns() if helpers else []
+        for f in fns:
+            f.fn_id = "%s::%s" % (self.cid, f.name)
+        if self.mode == "fn":
+            assert len(fns) == 1
+            self.lines.append(self.attr_line(trait_vis, trait_name, self.options, fns[0].deps_kind == "no_deps"))
+            self.lines.append(fns[0].source(""))
+            self.prefix = ""
+        else:
+            self.lines.append(self.attr_line(trait_vis, trait_name, self.options, False))
+            self.lines.append("pub mod subject_mod {")
+            self.lines.append("    use super::*;")
+            for f in fns:
+                if not f.vis:
+                    f.vis = "pub"
+                self.lines.append(f.source("    "))
+            self.lines.append("}")
+            self.prefix = "subject_mod::"
+        self.fns = fns
+        self.trait_name = trait_name
+        return self
+
     def support(self):
         need = set()
         for f in self.fns:
